@@ -186,6 +186,8 @@ def defect(e):
 
 
 def run(ctx):
+    from ..lints import enum_members_distinct
+    enum_members_distinct(ctx, ANN, "R1.enum-members-distinct")
     # which alphabet a sequence has is decided by value (an unpickled / deep-copied sequence carries its own copy of the alphabet):
     # slicing, feature indexing and reverse_complement clone through NucleotideSequence.__copy_create__
     from ..lints import alphabets_compared_by_value
